@@ -311,4 +311,4 @@ def run(chk):
     bounded(chk)
     chk.extra["explanation"] = ("proved for every RNG outcome (range contracts): flags, membership, ordering (incl. the is_sorted=True fast path), size/strata equations, at-least-one, dynamic rule, "
                                 "error paths, mean-one multiplicity for the label-stratified single pass. Bounded/statistical: unbiasedness (mean multiplicity, class sizes, reachability) "
-                                "on seeded runs. Explicit single_pass on small sources can leave a class empty (known finding, see known_findings.json).")
+                                "on seeded runs. Explicit single_pass on small sources could leave a class empty on the pinned tree (repaired, see known_findings.json: fixed 81117e9).")
